@@ -162,6 +162,8 @@ class FakeProc(object):
         self.killed = False
         self.stdout_h = stdout
         self.polls = 0
+        self.spawner = sim.baton.current()
+        self.exit_step = None
         sim.procs.append(self)
         sim.proc_of[uid] = self
 
@@ -293,8 +295,9 @@ class ExecSim(object):
 
     MAX_STEPS = 6000
 
-    def __init__(self, spawner='POPEN', session=None, baton=None, psbox=None):
+    def __init__(self, spawner='POPEN', session=None, baton=None, psbox=None, hold_exit=False):
         self.problems = []
+        self.hold_exit = hold_exit   # processes only exit once the intake that spawned them is done
         self.baton = baton or Baton()
         self._nlock = 0
         self._npid  = 0
@@ -490,6 +493,8 @@ class ExecSim(object):
         self.steps += 1
         self.baton.resume(name)
         ct = self.baton.threads[name]
+        if ct.done and getattr(ct, 'done_step', None) is None:
+            ct.done_step = self.steps
         if ct.done and ct.exc is not None and not getattr(ct, 'reported', False):
             ct.reported = True
             if isinstance(ct.exc, DetSchedError):
@@ -541,12 +546,16 @@ class ExecSim(object):
         self.dyn.append(name)
         self.cancel_of[name] = uids
 
+    def may_exit(self, p):
+        return not (self.hold_exit and p.spawner is not None and not p.spawner.done)
+
     def exit_proc(self, k, code=None):
-        live = [p for p in self.procs if p.returncode is None]
+        live = [p for p in self.procs if p.returncode is None and self.may_exit(p)]
         if not live:
             return
         p = live[k % len(live)]
         p.returncode = self.tasks[p.uid].get('exit', 0) if code is None else code
+        p.exit_step = self.steps
 
     def tick(self, dt):
         self.baton.now += max(0.0, float(dt))
@@ -627,8 +636,9 @@ class ExecSim(object):
             if same >= 2:
                 if not exited:
                     for p in self.procs:
-                        if p.returncode is None:
+                        if p.returncode is None and self.may_exit(p):
                             p.returncode = self.tasks[p.uid].get('exit', 0)
+                            p.exit_step = self.steps
                     exited = True
                     same = 0
                     continue
@@ -675,7 +685,15 @@ class ExecSim(object):
                 continue
             if uid in self.must_cancel and e['pushed_tasks']:
                 ts = e['pushed_tasks'][0].get('target_state')
-                if ts != rps.CANCELED:
+                pr = self.proc_of.get(uid)
+                ambiguous = False
+                if self.must_cancel[uid] == 'before_spawn' and pr is not None and not pr.killed \
+                        and pr.exit_step is not None and pr.spawner is not None:
+                    # the process exited by itself while its own launch was still in
+                    # progress: "had already finished" when the request could take effect
+                    ds = getattr(pr.spawner, 'done_step', None)
+                    ambiguous = ds is None or pr.exit_step <= ds
+                if ts != rps.CANCELED and not ambiguous:
                     self.bad('C08', 'named_task_not_canceled:%s' % self.must_cancel[uid],
                              '%s: cancel request handled while the task was %s, outcome %s'
                              % (uid, self.must_cancel[uid], ts))
@@ -765,7 +783,7 @@ class ExecSim(object):
 
 # ------------------------------------------------------------------------------
 def run_schedule(case):
-    sim = ExecSim(spawner=case.get('spawner', 'POPEN'))
+    sim = ExecSim(spawner=case.get('spawner', 'POPEN'), hold_exit=bool(case.get('hold_exit')))
     try:
         bulks = [list(b) for b in case.get('bulks', [])]
         bi = 0
